@@ -343,6 +343,10 @@ pub fn enumerate_singles(b: &Base, seed: u64, thorough: bool) -> Vec<Fault> {
                 }
             }
         }
+        // a stray character in front of the line (LF CR mix-ups, editor artefacts, indentation)
+        for lead in [&b"\r"[..], b" ", b"\t", b"\n", b"\r\r", b"\x0b"] {
+            out.push(sp("line_lead", l.start, l.start, lead));
+        }
         // key mangled, value emptied, colon removed
         out.push(sp("line_key", l.start, l.start + 1, b"X"));
         out.push(sp("line_value_empty", l.value_start, l.end.saturating_sub(1), &[]));
@@ -365,6 +369,15 @@ pub fn enumerate_singles(b: &Base, seed: u64, thorough: bool) -> Vec<Fault> {
             crlf.push(*b);
         }
         out.push(sp("crlf_header", 0, m.data_start, &crlf));
+        // ... and the other way round: LF CR
+        let mut lfcr = Vec::with_capacity(hdr.len() + 64);
+        for b in hdr {
+            lfcr.push(*b);
+            if *b == b'\n' {
+                lfcr.push(b'\r');
+            }
+        }
+        out.push(sp("lfcr_header", 0, m.data_start, &lfcr));
         for l in m.lines.iter().step_by(3) {
             out.push(sp("crlf_line", l.end.saturating_sub(1), l.end.saturating_sub(1), b"\r"));
         }
